@@ -295,7 +295,24 @@ static Type parse_type(Stage1Parser *p) {
 */
 
 /* Parse type annotation with optional element_type output (for arrays) and type_param_name for generics */
+static Type parse_type_with_element_impl(Stage1Parser *p, Type *element_type_out, char **type_param_name_out, FunctionSignature **fn_sig_out, TypeInfo **type_info_out);
+
+/* Types nest (array<array<...>>, fn() -> fn() -> ..., generics): they take part in the nesting limit */
 static Type parse_type_with_element(Stage1Parser *p, Type *element_type_out, char **type_param_name_out, FunctionSignature **fn_sig_out, TypeInfo **type_info_out) {
+    p->recursion_depth++;
+    if (p->recursion_depth > MAX_RECURSION_DEPTH) {
+        Token *tok = current_token(p);
+        parser_error(p, tok ? tok->line : 0, tok ? tok->column : 0, "Error at line %d, column %d: Type nesting depth exceeded maximum (%d)\n",
+                tok ? tok->line : 0, tok ? tok->column : 0, MAX_RECURSION_DEPTH);
+        p->recursion_depth--;
+        return TYPE_UNKNOWN;
+    }
+    Type t = parse_type_with_element_impl(p, element_type_out, type_param_name_out, fn_sig_out, type_info_out);
+    p->recursion_depth--;
+    return t;
+}
+
+static Type parse_type_with_element_impl(Stage1Parser *p, Type *element_type_out, char **type_param_name_out, FunctionSignature **fn_sig_out, TypeInfo **type_info_out) {
     Type type = TYPE_UNKNOWN;
     Token *tok = current_token(p);
 
@@ -1256,7 +1273,17 @@ static ASTNode *parse_primary(Stage1Parser *p) {
             int line = tok->line;
             int column = tok->column;
             advance(p);  /* consume 'not' */
+            /* A run of unary operators recurses here without passing through
+             * parse_expression, so it takes part in the nesting limit itself. */
+            p->recursion_depth++;
+            if (p->recursion_depth > MAX_RECURSION_DEPTH) {
+                parser_error(p, line, column, "Error at line %d, column %d: Expression recursion depth exceeded maximum (%d). Possible infinite recursion or extremely nested expression.\n",
+                        line, column, MAX_RECURSION_DEPTH);
+                p->recursion_depth--;
+                return NULL;
+            }
             ASTNode *operand = parse_primary(p);
+            p->recursion_depth--;
             if (!operand) return NULL;
             {
                 /* -p.x is -(p.x), not (-p).x */
@@ -1277,7 +1304,17 @@ static ASTNode *parse_primary(Stage1Parser *p) {
             int line = tok->line;
             int column = tok->column;
             advance(p);  /* consume '-' */
+            /* A run of unary operators recurses here without passing through
+             * parse_expression, so it takes part in the nesting limit itself. */
+            p->recursion_depth++;
+            if (p->recursion_depth > MAX_RECURSION_DEPTH) {
+                parser_error(p, line, column, "Error at line %d, column %d: Expression recursion depth exceeded maximum (%d). Possible infinite recursion or extremely nested expression.\n",
+                        line, column, MAX_RECURSION_DEPTH);
+                p->recursion_depth--;
+                return NULL;
+            }
             ASTNode *operand = parse_primary(p);
+            p->recursion_depth--;
             if (!operand) return NULL;
             {
                 /* -p.x is -(p.x), not (-p).x */
